@@ -40,6 +40,9 @@ type RecFetcher struct {
 	// MarkerDNE: an unavailable bound name is reported as cached and its value is the DNE marker (the way a value map
 	// given to NewCtxFromVars marks a variable as unknown) instead of being reported as not cached.
 	MarkerDNE bool
+	// Self: the compiled expression this fetcher is used with (for cself, the operator that evaluates the expression it
+	// occurs in once more, with its own context)
+	Self *eval.Expr
 }
 
 func (f *RecFetcher) Get(k eval.VariableKey, s string) (eval.Value, error) {
